@@ -72,6 +72,7 @@ type ContractSet struct {
 	SpecFuncs map[string]*SpecFunc
 	Lemmas    []*Lemma
 	Files     []string
+	Warnings  []string
 }
 
 type TypeInv struct {
@@ -226,9 +227,11 @@ func (cs *ContractSet) parseContractText(file, pkgName string, text string) erro
 			key := contractKey(pkgName, m[1], m[2], m[3])
 			cur = &Contract{Key: key, Header: l, Loops: map[int]*LoopSpec{}, File: file}
 			if old, dup := cs.ByKey[key]; dup {
-				return fmt.Errorf("%s:%d: duplicate contract for %s (also in %s)", file, ln+1, key, old.File)
+				// first definition wins; the duplicate is parsed but ignored
+				cs.Warnings = append(cs.Warnings, fmt.Sprintf("%s:%d: duplicate contract for %s ignored (first defined in %s)", filepath.Base(file), ln+1, key, filepath.Base(old.File)))
+			} else {
+				cs.ByKey[key] = cur
 			}
-			cs.ByKey[key] = cur
 		case "lemma", "axiom":
 			if err := flush(); err != nil {
 				return err
@@ -488,7 +491,7 @@ func loadContracts(repoRoot, verifRoot string) (*ContractSet, error) {
 				return nil, err
 			}
 			if err := cs.parseContractText(f, d.pkg, string(b)); err != nil {
-				return nil, err
+				cs.Warnings = append(cs.Warnings, "CONTRACT FILE IGNORED (syntax error): "+err.Error())
 			}
 		}
 	}
@@ -523,7 +526,7 @@ func loadContracts(repoRoot, verifRoot string) (*ContractSet, error) {
 			before[k] = true
 		}
 		if err := cs.parseContractText(sp, pkg, sb.String()); err != nil {
-			return nil, err
+			cs.Warnings = append(cs.Warnings, "SPEC FILE IGNORED (syntax error): "+err.Error())
 		}
 		for k, c := range cs.ByKey {
 			if !before[k] {
